@@ -4,6 +4,7 @@
 //! stored-block codec and a full SHA-1):
 //!   deflate <data> <sizes>                 real `deflate::Write` into a Vec: every `write` return value, `flush`,
 //!                                          then the output inflated by the real `inflate::read`
+//!   deflatesw <data> <sizes> <maxwrite>    the same over an inner writer that accepts only 1..maxwrite bytes per call
 //!   hash <kind> <data> <sizes> <maxwrite>  `compute_hash`, `compute_stream_hash`, `hash::Write` (+ `write_all`)
 //!   streamhash <kind> <declared> <data>    `compute_stream_hash` with a declared length that may be wrong
 //!   once <zhex> <cap>                      `Inflate::once` on a stored-block stream (flate2 level 0) or a damaged one
@@ -105,6 +106,30 @@ impl Write for Sink {
     }
 }
 
+/// the inner writer of `deflate::Write` in the tests: accepts between 1 and `max` bytes per call in a varying
+/// pattern (`max == 0`: everything), and `Ok(0)` on call number `zero_at`
+struct PatSink {
+    max: usize,
+    zero_at: Option<usize>,
+    calls: usize,
+    data: Vec<u8>,
+}
+impl Write for PatSink {
+    fn write(&mut self, buf: &[u8]) -> std::io::Result<usize> {
+        let call = self.calls;
+        self.calls += 1;
+        if self.zero_at == Some(call) {
+            return Ok(0);
+        }
+        let n = if self.max == 0 { buf.len() } else { (1 + call.wrapping_mul(2654435761) % self.max).min(buf.len()) };
+        self.data.extend_from_slice(&buf[..n]);
+        Ok(n)
+    }
+    fn flush(&mut self) -> std::io::Result<()> {
+        Ok(())
+    }
+}
+
 /// a reader that hands out at most `sizes[i % len]` (min 1) bytes per `read`
 struct ShortReader<'a> {
     data: &'a [u8],
@@ -179,9 +204,14 @@ struct DeflateRun {
 /// drive the real `deflate::Write` exactly like the Lean driver's `driveWrites`; `Err("hang")` when it does not
 /// come back within the deadline (the worker thread is abandoned, the run is cut short afterwards)
 fn run_deflate(pieces: &[&[u8]]) -> Result<DeflateRun, String> {
+    run_deflate_inner(pieces, 0, None)
+}
+
+/// … with an inner writer that accepts at most `max` bytes per call (0: all) and nothing at all on call `zero_at`
+fn run_deflate_inner(pieces: &[&[u8]], max: usize, zero_at: Option<usize>) -> Result<DeflateRun, String> {
     let owned: Vec<Vec<u8>> = pieces.iter().map(|p| p.to_vec()).collect();
     let res = with_deadline(std::time::Duration::from_secs(45), move || {
-        let mut w = zlib::stream::deflate::Write::new(Vec::new());
+        let mut w = zlib::stream::deflate::Write::new(PatSink { max, zero_at, calls: 0, data: Vec::new() });
         let mut rets = Vec::new();
         let mut failed = false;
         'outer: for piece in &owned {
@@ -208,7 +238,7 @@ fn run_deflate(pieces: &[&[u8]]) -> Result<DeflateRun, String> {
             }
         }
         let flush_ok = !failed && w.flush().is_ok();
-        DeflateRun { rets, failed_write: failed, flush_ok, out: w.into_inner() }
+        DeflateRun { rets, failed_write: failed, flush_ok, out: w.into_inner().data }
     });
     match res {
         None => Err("hang".into()),
@@ -251,11 +281,26 @@ fn do_op(cx: &mut Ctx, op: &str) {
     let args: Vec<&str> = op.split(' ').collect();
     let rep = &mut cx.rep;
     match args.as_slice() {
-        ["deflate", data_tok, sizes_tok] => {
+        ["deflate", data_tok, sizes_tok] | ["deflatesw", data_tok, sizes_tok, _] => {
+            // `deflatesw … <maxwrite>`: the inner writer accepts between 1 and <maxwrite> bytes per call
+            let maxw = if args[0] == "deflatesw" {
+                match args[3].parse::<usize>() {
+                    Ok(m) => m,
+                    Err(_) => {
+                        rep.case(op, "bad-op", false);
+                        return;
+                    }
+                }
+            } else {
+                0
+            };
             let (Some(data), Some(sizes)) = (parse_data(data_tok), parse_nats(sizes_tok)) else {
                 rep.case(op, "bad-op", false);
                 return;
             };
+            if maxw != 0 {
+                rep.bucket(&format!("deflate:inner-accepts<={}", if maxw <= 8 { "8" } else if maxw <= 4096 { "4096" } else { "more" }));
+            }
             let pieces = split_by(&sizes, &data);
             rep.bucket(&format!("deflate:len~2^{}", usize::BITS - data.len().leading_zeros()));
             if sizes.iter().any(|s| *s == 0) {
@@ -264,7 +309,7 @@ fn do_op(cx: &mut Ctx, op: &str) {
             if sizes.iter().any(|s| (32767..=32769).contains(s)) {
                 rep.bucket("deflate:write-around-32KiB");
             }
-            let obs = match run_deflate(&pieces) {
+            let obs = match run_deflate_inner(&pieces, maxw, None) {
                 Err(e) if e == "hang" => {
                     cx.hung = true;
                     rep.oracle_failure(&format!("deflate {data_tok} {sizes_tok}"), "deflate::Write::write/flush did not return within 45 s (the write_inner loop does not terminate)", op);
@@ -276,7 +321,7 @@ fn do_op(cx: &mut Ctx, op: &str) {
                 Ok(run) => {
                     // the property itself, on the real code
                     rep.oracle_checked();
-                    let key = format!("deflate {data_tok} {sizes_tok}");
+                    let key = op.to_string();
                     let inflated = real_inflate_all(&run.out, vec![run.out.clone()], data.len() + 1);
                     let o = match &inflated {
                         Ok(Ok((n, got))) => {
@@ -696,7 +741,27 @@ fn oracle_big(cx: &mut Ctx, r: &mut Rng, cases: u64, max: usize) {
         cx.rep.oracle_checked();
         cx.rep.bucket(&format!("big:len~2^{}", usize::BITS - n.leading_zeros()));
         let pieces = split_by(&sizes, &data);
-        match run_deflate(&pieces) {
+        // an inner writer that returns Ok(0) at some point: the failure must be reported, never swallowed
+        {
+            let zero_at = r.usize(40);
+            let maxw = *r.pick(&[0usize, 5, 4096]);
+            let zkey = format!("deflate-writezero g{mode}:{seed}:{n} {} max={maxw} zero_at={zero_at}", show_nats(&sizes));
+            cx.rep.oracle_checked();
+            match run_deflate_inner(&pieces, maxw, Some(zero_at)) {
+                Ok(run) if !run.failed_write && run.flush_ok => {
+                    // the zero-accepting call may simply not have been reached; then the output must be intact
+                    match real_inflate_all(&run.out, vec![run.out.clone()], n + 1) {
+                        Ok(Ok((_, got))) if got == data => {}
+                        _ => cx.rep.oracle_failure(&zkey, "the inner writer refused bytes (Ok(0)), deflate::Write reported success, yet the output does not inflate to the input", &zkey),
+                    }
+                }
+                Ok(_) => cx.rep.bucket("big:writezero-reported"),
+                Err(e) => cx.rep.oracle_failure(&zkey, &format!("deflate::Write with a refusing inner writer: {e}"), &zkey),
+            }
+        }
+        let inner_max = *r.pick(&[0usize, 0, 1, 9, 5000, 32768]);
+        let key = if inner_max == 0 { key } else { format!("deflatesw g{mode}:{seed}:{n} {} {inner_max}", show_nats(&sizes)) };
+        match run_deflate_inner(&pieces, inner_max, None) {
             Ok(run) if !run.failed_write && run.flush_ok => {
                 // inflate in one piece and in random chunks, into exact and oversized buffers
                 for variant in 0..3 {
@@ -834,6 +899,11 @@ fn main() {
         "deflate g1:3:65536 0,32768,0,32768,0".into(),
         "deflate g2:4:100000 1".into(),
         "deflate g0:5:131071 65535,65536".into(),
+        "deflatesw 616263 - 1".into(),
+        "deflatesw g1:3:5000 1000,0,4000 1".into(),
+        "deflatesw g0:4:70000 32768,32769 7".into(),
+        "deflatesw g0:6:100000 - 32767".into(),
+        "deflatesw g2:6:200000 1,199999 3".into(),
         "hash blob - - 0".into(),
         "hash blob 616263 - 0".into(),
         "hash commit g0:7:55 - 1".into(),
@@ -878,7 +948,13 @@ fn main() {
             0..=3 => {
                 let tok = gen_data_tok(&mut r, max);
                 let total = parse_data(&tok).map(|d| d.len()).unwrap_or(0);
-                format!("deflate {} {}", tok, show_nats(&gen_sizes(&mut r, total)))
+                if r.chance(2, 5) {
+                    // an inner writer that takes only part of what it is offered
+                    let maxw = *r.pick(&[1usize, 1, 2, 3, 7, 64, 1000, 4096, 32767, 32768, 40000]);
+                    format!("deflatesw {} {} {}", tok, show_nats(&gen_sizes(&mut r, total)), maxw)
+                } else {
+                    format!("deflate {} {}", tok, show_nats(&gen_sizes(&mut r, total)))
+                }
             }
             4..=6 => {
                 let maxw = *r.pick(&[0usize, 0, 0, 1, 7, 64, 4096, 65536]);
